@@ -114,6 +114,22 @@ class Scenario:
                     exp = len(f['items']) - claimed[i] + (tokens[i] if name == 'full' else 0)
                     if f['sem'] != exp:
                         return dict(kind='semaphore', what='%s fifo %d: semaphore %d but %d unclaimed items (%s)' % (name, i, f['sem'], exp, where))
+            # side condition of the ring -> deque refinement theorem (RingRefine.ring_step_refines): no circular buffer was ever
+            # pushed beyond its capacity, i.e. each one is a window of cnt entries starting at head (RingRefine.wf)
+            for name, q in (('empty', st['E']), ('full', st['F'])):
+                if q is None:
+                    continue
+                for rn in ('oq', 'pq'):
+                    if rn == 'pq' and self.nb_ok:
+                        # svt_get_full_object_non_blocking queues its (single) consumer again on every poll: the capacity-1
+                        # process ring is rewritten with the same pointer and only its counter grows. Harmless for C23 (the
+                        # monitors above still apply) but outside the side condition of the refinement theorem.
+                        continue
+                    r = q[rn]; c = r['cap']
+                    some = [k for k, x in enumerate(r['slots']) if x is not None]
+                    win = sorted((r['head'] + k) % c for k in range(max(0, min(r['cnt'], c)))) if c else []
+                    if not (0 <= r['cnt'] <= c and some == win and r['tail'] == ((r['head'] + r['cnt']) % c if c else 0)):
+                        return dict(kind='ring_capacity', what='%s queue %s ring is not a window of its entries: cap=%d head=%d tail=%d cnt=%d occupied=%s (%s)' % (name, rn, c, r['head'], r['tail'], r['cnt'], some, where))
             # an object is in the pool structures iff it is free
             pool = [x for x in st['E']['oq']['slots'] if x is not None] + [x for f in st['E']['fifos'] for x in f['items']]
             for o in range(self.nobj):
@@ -286,7 +302,7 @@ class Scenario:
 def run(ck):
     ck.trust('Coq 8.16.1 kernel (coqc); no native_compute', 'hand model SV.SRMring tied by lockstep differential run of every critical section against the real code (harness #includes EbSystemResourceManager.c)',
              'atomicity: each model step is one mutex-protected section of the C (pthread mutex / POSIX semaphore semantics trusted)', 'extraction (ExtrOcamlBasic only) + obs/c23.ml', 'gcc')
-    ck.prove('Properties_C23', extra_modules=['SRM', 'SRMorder', 'SRMring', 'Proofs_C23'])
+    ck.prove('Properties_C23', extra_modules=['SRM', 'SRMorder', 'SRMring', 'Proofs_C23', 'RingRefine'])
     hd = os.path.join(CACHE, 'h', 'c23'); os.makedirs(hd, exist_ok=True)
     hbin = os.path.join(hd, 'srm_h')
     ok, log = build.cc(hbin, [os.path.join(VERIF, 'harness/unit/srm_harness.c')] + [os.path.join(REPO, s) for s in SRC], flags='-DNDEBUG -w')
@@ -308,6 +324,7 @@ def run(ck):
         sc = Scenario(rng, nobj, nprod, ncons, rng.choice([20, 60, 150]), nb_ok, rng.random() < 0.4)
         r = sc.run(impl, model)
         dist['scenarios'] += 1; dist['steps'] += len(sc.script)
+        dist['non_blocking_polls_outside_refinement_side_condition'] = dist.get('non_blocking_polls_outside_refinement_side_condition', 0) + (1 if nb_ok else 0)
         key = '%d/%d/%d' % (nobj, nprod, ncons); dist['by_shape'][key] = dist['by_shape'].get(key, 0) + 1
         for l in sc.script:
             c = l.split()[0]; dist['ops'][c] = dist['ops'].get(c, 0) + 1
@@ -338,4 +355,4 @@ def run(ck):
         ck.violation('obligation_broken', 'C23 proof/tie no longer checks: ' + '; '.join('%s (%s)' % (n, d[:200]) for n, d in br[:3]),
                      dict(broken=[dict(name=n, detail=d) for n, d in br], first_model_vs_impl_difference=first_diff,
                           searched='%d scheduler scenarios with conservation / hand-out / order / wake-up / release / shutdown predicates evaluated on the real code: no failing input' % dist['scenarios']), False)
-    ck.cov['explanation'] = 'deque-level theorems for all interleavings (Coq); ring-level model in lockstep with the real code over %d scenarios / %d steps; spec predicates evaluated on the real structure after every step' % (dist['scenarios'], dist['steps'])
+    ck.cov['explanation'] = 'deque-level theorems for all interleavings (Coq); ring layer refines the deque layer while no ring exceeds its capacity (RingRefine.ring_run_refines), the capacity window evaluated on every real state (object rings always; process rings except in single-consumer non-blocking polling, where the C re-queues the same consumer); ring-level model in lockstep with the real code over %d scenarios / %d steps; spec predicates evaluated on the real structure after every step' % (dist['scenarios'], dist['steps'])
